@@ -27,5 +27,9 @@ def encode : Event → Bytes
   | .message d => ((rustLines d).map fun l => b!"data: " ++ l ++ [10]).flatten
   | .custom t d => b!"event: " ++ t ++ [10] ++ ((rustLines d).map fun l => b!"data: " ++ l ++ [10]).flatten
 
+/-- `Event::custom(type, data)`: refused when the type contains CR or LF. -/
+def custom? (t d : Bytes) : Option Event :=
+  if t.contains 13 || t.contains 10 then none else some (.custom t d)
+
 end EventModel
 end Servlin
